@@ -73,7 +73,9 @@ Tags   == << [n |-> "type", v |-> P0("food")], [n |-> "project", v |-> P0("x y")
              [n |-> "memo", v |-> P0("été")], [n |-> "flag", v |-> P0("")], [n |-> "who", v |-> P("me😀", 1)],
              [n |-> "time", v |-> P0("12:30")],          \* a value may contain colons: the name ends at the FIRST colon
              [n |-> "place", v |-> P0("food")],          \* the same value under two names (type:food, place:food)
-             [n |-> "area", v |-> P0("north"), gap |-> 1] >>   \* a blank after the colon: "area: north"
+             [n |-> "area", v |-> P0("north"), gap |-> 1],     \* a blank after the colon: "area: north"
+             [n |-> "url", v |-> P0("http://a.b/c?d=1")], [n |-> "q", v |-> P0("\"quoted\"")], [n |-> "eq", v |-> P0("a=b (c) [d] @ 5")],
+             [n |-> "a-b", v |-> P0("1")], [n |-> "A_1", v |-> P0("x")] >>   \* names with a hyphen, an underscore, a capital and a digit
 FreeTexts == << P0("note"), P0(" spaced  text "), P("😀", 1), P0("paid in cash") >>
 
 (* ---- numbers ------------------------------------------------------------------------------- *)
